@@ -90,7 +90,10 @@ def check_string(ctx, mode, s, mutations):
     if not mutations:
         return
     digits = [k for k, ch in enumerate(full) if ch.isdigit()]
-    for k in digits:
+    # for very long numbers every position is still covered across the sample, but each number contributes about 40 of them
+    stride = max(1, len(digits) // 40)
+    first = len(s) % stride
+    for k in (digits if stride == 1 else digits[first::stride] + digits[:2] + digits[-2:]):
         for d in '0123456789':
             if d == full[k]:
                 continue
@@ -135,11 +138,14 @@ def run_chunk(ctx, case):
         return
     rng = ctx.rng_global('sampled', case['salt'])
     for _ in range(case['n']):
-        n = rng.randint(6, 40)
+        n = rng.randint(6, 40) if rng.random() < 0.7 else rng.choice([41, 63, 64, 65, 66, 67, 99, 100, 101, 127, 128, 129, 199, 200, rng.randint(41, 200)])
+        ctx.seen('long payload length parities (over 64 digits)', n % 2) if n > 64 else None
         digits = [rng.choice('0123456789') for _ in range(n)]
         if rng.random() < 0.4:
             for k in range(4, n, 4 + rng.randint(0, 1)):
                 digits[k] = digits[k] + rng.choice(' -')
+            if rng.random() < 0.2:
+                digits[0] = rng.choice(' -') + digits[0]      # a leading separator
         s = ''.join(digits)
         check_string(ctx, mode, s, True)
         ctx.case_done(['s', mode, s])
@@ -215,6 +221,8 @@ def require(m):
         reasons.append('interpreter modes not all confirmed by sys.flags.optimize')
     if not c.get('single-digit substitutions judged') or not c.get('adjacent transpositions judged'):
         reasons.append('no mutation of a valid number was judged')
+    if set(m['classes'].get('long payload length parities (over 64 digits)', ())) != {0, 1}:
+        reasons.append('payloads longer than 64 digits of both parities not seen')
     if set(m['classes'].get('parities (payload length mod 2) seen', ())) != {0, 1}:
         reasons.append('both length parities not seen')
     return reasons
